@@ -634,6 +634,9 @@ class InterpBase:
         g = e.generators[0]
         it = self.eval(g.iter, fr)
         items = self.iter_concrete(it)
+        if items is None and kind in ('list', 'gen') and isinstance(g.target, ast.Name) and isinstance(e.elt, ast.Name) \
+                and e.elt.id == g.target.id and (self.is_symlist(it) or isinstance(it, VSeq)):
+            return self.filter_comprehension(e, g, it, fr)
         if items is None:
             raise Undecided(f'comprehension over symbolic collection at line {e.lineno} '
                             f'(needs a comprehension hook {key})')
@@ -658,6 +661,30 @@ class InterpBase:
         if kind == 'set':
             raise Undecided('set comprehension over concrete items')
         return self.ex.alloc(HList(out))
+
+    def filter_comprehension(self, e, g, it, fr):
+        """[x for x in S if P(x)] over a symbolic sequence: the result R is characterised, for every tracked
+        (Skolem) element e, by cnt(e, R) == (P(e) ? cnt(e, S) : 0); order is not modelled."""
+        from .interp_data import cnt_f
+        ex = self.ex
+        S = self.seq_get(it) if self.is_symlist(it) else it.e
+        hint = getattr(ex.heap[it.addr], 'elem_hint', None) if isinstance(it, VRef) else None
+        R = ex.fresh('filtered', SeqVal)
+        ex.assume(z3.Length(R) <= z3.Length(S))
+        sub = Frame(fr.fi, parent=fr, module=fr.module)
+        sub.self_cls, sub.owner = fr.self_cls, fr.owner
+        for el in self.tracked():
+            self.assign(g.target, VSym(el, hint=hint), sub)
+            p = True
+            for c in g.ifs:
+                t = self.truth(self.eval(c, sub))
+                p = self.land(p, t)
+            pz = p if isinstance(p, z3.ExprRef) else z3.BoolVal(bool(p))
+            ex.assume(cnt_f(el, R) == z3.If(pz, cnt_f(el, S), 0))
+            self.fact_part(el, S)
+        res = ex.alloc(HSymList(R))
+        ex.heap[res.addr].elem_hint = hint
+        return res
 
     def comp_ordinal(self, e, fr):
         if fr.fi is None:
@@ -808,6 +835,9 @@ class InterpBase:
     def class_attr_value(self, owner, name, expr):
         ex = self.ex
         key = (owner.qualname, name)
+        hook = ex.ghost.get('__classattr_access_hook__')
+        if hook is not None:
+            hook(self, key, 'read')
         if key in ex.class_attrs:
             return ex.class_attrs[key]
         if isinstance(expr, ast.Constant):
@@ -879,6 +909,9 @@ class InterpBase:
             return ac.setattr(self, obj, name, value, node)
         if isinstance(obj, VClass):
             found, owner = ex.repo.lookup_method(obj.ci, name)
+            hook = ex.ghost.get('__classattr_access_hook__')
+            if hook is not None:
+                hook(self, ((owner.qualname if isinstance(owner, ClassInfo) and found is not None else obj.ci.qualname), name), 'write')
             ex.class_attrs[((owner.qualname if isinstance(owner, ClassInfo) and found is not None else obj.ci.qualname), name)] = value
             ex.note(f'classattr:{obj.ci.name}.{name}')
             return
